@@ -25,9 +25,11 @@ vars == <<q, R, depth>>
 
 AllMulRoutes  == {"product", "mul", "matmul", "q_prod", "mult_L", "mult_R", "rotate_by"}
 AllDcmRoutes  == {"Quaternion.to_DCM", "QuaternionArray.to_DCM", "DCM(q=)", "DCM.from_quaternion",
-                  "DCM.from_quaternion[batch]", "q2R.v1", "q2R.v2", "q2R.v1[batch]", "q2R.v2[batch]"}
-AllRotRoutes  == {"Quaternion.rotate", "q_rot", "sandwich"}
-AllConjRoutes == {"conjugate", "conj", "q_conj", "array_conjugate", "inverse"}
+                  "DCM.from_quaternion[batch]", "q2R.v1", "q2R.v2", "q2R.v1[batch]", "q2R.v2[batch]",
+                  \* the same quaternion held by an object in scalar-last storage, directly and through derived objects
+                  "Quaternion[S].to_DCM", "neg(Quaternion[S]).to_DCM", "Quaternion[S].copy.to_DCM", "Quaternion[S].view.to_DCM"}
+AllRotRoutes  == {"Quaternion.rotate", "q_rot", "sandwich", "Quaternion[S].copy.rotate"}
+AllConjRoutes == {"conjugate", "conj", "q_conj", "q_conj[batch]", "array_conjugate", "inverse", "Quaternion[S].copy.conjugate"}
 (* which routes a configuration distinguishes: all of them when behaviours are   *)
 (* generated for replay, one when only the laws are model-checked                *)
 CONSTANTS MulRoutes, DcmRoutes, RotRoutes, ConjRoutes
